@@ -4,6 +4,7 @@
 -/
 import CvModel
 import CvGen
+import Std.Data.HashMap
 open Cv
 
 structure DState where
@@ -15,6 +16,10 @@ structure DState where
   actInv : Option (Nat → Nat → Nat) := none
   invClosed : Bool := false
   batch : Nat := 2^20
+  /-- hash table supplied by the harness (state -> the implementation's hash); empty = identity key -/
+  tab : Std.HashMap Nat Int := {}
+  central : Nat := 0
+  invMap : Option (List Nat) := none
 
 def toks (s : String) : List String := (s.splitOn " ").filter (· ≠ "")
 def secs (s : String) : List String := (s.splitOn ";").map fun x => x.trimAscii.toString
@@ -24,12 +29,139 @@ def showNats (l : List Nat) : String := " ".intercalate (l.map toString)
 def showInts (l : List Int) : String := " ".intercalate (l.map toString)
 def showLL (l : List (List Nat)) : String := " | ".intercalate (l.map showNats)
 
+/-- with a table: the implementation's hash; a miss maps outside the int64 range (never collides silently) -/
+def DState.hash (d : DState) : Nat → Int :=
+  if d.tab.isEmpty then fun x => (x : Int)
+  else
+    let t := d.tab
+    fun x => match t.get? x with
+      | some h => h
+      | none => (x : Int) + 2^100
+
 def DState.graph (d : DState) : Graph Nat :=
-  { nGens := d.nGens, act := d.act, hash := fun x => (x : Int), invClosed := d.invClosed, batchSize := d.batch }
+  { nGens := d.nGens, act := d.act, hash := d.hash, invClosed := d.invClosed, batchSize := d.batch }
 
 def DState.graphInv (d : DState) : Option (Graph Nat) :=
   d.actInv.map fun a =>
-    { nGens := d.nGens, act := a, hash := fun x => (x : Int), invClosed := d.invClosed, batchSize := d.batch }
+    { nGens := d.nGens, act := a, hash := d.hash, invClosed := d.invClosed, batchSize := d.batch }
+
+def parseLayers (s : String) : Option (List (List Int)) :=
+  if s.trimAscii.toString == "" then some [] else ((s.splitOn "|").map fun x => x.trimAscii.toString).mapM ints
+
+def parseNatLists (s : String) : Option (List (List Nat)) :=
+  if s.trimAscii.toString == "" then some [] else ((s.splitOn "|").map fun x => x.trimAscii.toString).mapM nats
+
+def showPathRes : PathRes → String
+  | .found p => "found " ++ showNats p
+  | .notFound => "none"
+  | .assertFail _ => "assert"
+
+def showBeam : Option BeamRes → String
+  | none => "assert"
+  | some r => s!"{if r.found then 1 else 0} {r.length} ; {match r.path with | none => "nopath" | some p => "path " ++ showNats p}"
+
+def showWalk (l : List (Nat × Nat)) : String :=
+  " ".intercalate (l.map fun (p : Nat × Nat) => toString p.1 ++ "," ++ toString p.2)
+
+def optNat (s : String) : Option (Option Nat) :=
+  if s == "-1" then some none else s.toNat?.map some
+
+/-- path / search operations on the current graph -/
+def handleAlgo (d : DState) (line : String) : Option String :=
+  match secs line with
+  | hd :: rest =>
+    match toks hd, rest with
+    | ["path.to"], [layers, e] =>
+      match d.graphInv, parseLayers layers, e.toNat? with
+      | some gi, some ls, some e => some (showPathRes (findPathTo d.graph gi ls e))
+      | none, _, _ => some "ERR no-inverse"
+      | _, _, _ => some "ERR parse"
+    | ["path.from"], [layers, e] =>
+      match d.graphInv, parseLayers layers, e.toNat? with
+      | some gi, some ls, some e => some (showPathRes (findPathFrom d.graph gi d.invMap ls e))
+      | none, _, _ => some "ERR no-inverse"
+      | _, _, _ => some "ERR parse"
+    | ["path.restore"], [layers, e] =>
+      match d.graphInv, parseLayers layers, e.toNat? with
+      | some gi, some ls, some e => some (match restorePath gi ls e with | some p => "found " ++ showNats p | none => "assert")
+      | none, _, _ => some "ERR no-inverse"
+      | _, _, _ => some "ERR parse"
+    | ["path.revert"], [p] =>
+      (nats p).map fun p => match revertPathM d.invMap p with | some r => "found " ++ showNats r | none => "assert"
+    | ["path.apply"], [st, p] =>
+      match st.toNat?, nats p with
+      | some st, some p => some (toString (applyPath d.act st p))
+      | _, _ => some "ERR parse"
+    | ["mitm.to"], [layers, e] =>
+      match d.graphInv, parseLayers layers, e.toNat? with
+      | some gi, some ls, some e => some (showPathRes (mitmFindPathTo d.graph gi ls e))
+      | none, _, _ => some "ERR no-inverse"
+      | _, _, _ => some "ERR parse"
+    | ["mitm.from"], [layers, e] =>
+      match d.graphInv, parseLayers layers, e.toNat? with
+      | some gi, some ls, some e => some (showPathRes (mitmFindPathFrom d.graph gi d.invMap ls e))
+      | none, _, _ => some "ERR no-inverse"
+      | _, _, _ => some "ERR parse"
+    | ["between", md], [starts, dests] =>
+      match d.graphInv, md.toNat?, nats starts, nats dests with
+      | some gi, some md, some S, some T =>
+        some (match findPathBetween d.graph gi S T md with
+          | none => "assert"
+          | some none => "none"
+          | some (some r) => s!"found {r.start} ; {showNats r.edges}")
+      | none, _, _, _ => some "ERR no-inverse"
+      | _, _, _, _ => some "ERR parse"
+    | ["findpath", me, md], [st] =>
+      match d.graphInv, optNat me, optNat md, st.toNat? with
+      | some gi, some me, some md, some st => some (showPathRes (findPath d.graph gi d.invMap d.central st me md))
+      | none, _, _, _ => some "ERR no-inverse"
+      | _, _, _, _ => some "ERR parse"
+    | ["beam.simple", w, steps, rp], [st, ball, sel] =>
+      match d.graphInv, w.toNat?, steps.toNat?, st.toNat?, parseNatLists sel with
+      | some gi, some w, some steps, some st, some sel =>
+        let ballL : Option (Option (List (List Int))) :=
+          if ball == "noball" then some none else (parseLayers ball).map some
+        match ballL with
+        | some ballL =>
+          let c : SimpleCfg Nat := { beamWidth := w, maxSteps := steps, returnPath := rp == "1", ball := ballL,
+                                     select := fun i _ => sel.getD i [] }
+          some (showBeam (beamSimple d.graph gi d.invMap d.central st c))
+        | none => some "ERR parse"
+      | none, _, _, _, _ => some "ERR no-inverse"
+      | _, _, _, _, _ => some "ERR parse"
+    | ["beam.adv", w, steps, depth], [st, dst, sel] =>
+      match w.toNat?, steps.toNat?, depth.toNat?, st.toNat?, dst.toNat?, parseNatLists sel with
+      | some w, some steps, some depth, some st, some dst, some sel =>
+        let c : AdvCfg Nat := { beamWidth := w, maxSteps := steps, historyDepth := depth,
+                                select := fun i _ => sel.getD (i - 1) [] }
+        some (showBeam (beamAdvanced d.graph st dst c))
+      | _, _, _, _, _, _ => some "ERR parse"
+    | ["walks.classic", w, len], [st, draws] =>
+      match w.toNat?, len.toNat?, st.toNat?, parseNatLists draws with
+      | some w, some len, some st, some draws => some (showWalk (walksClassic d.graph w len st draws))
+      | _, _, _, _ => some "ERR parse"
+    | ["walks.bfs", w, len], [st, perms] =>
+      match w.toNat?, len.toNat?, st.toNat?, parseNatLists perms with
+      | some w, some len, some st, some perms => some (showWalk (walksBfs d.graph w len st perms))
+      | _, _, _, _ => some "ERR parse"
+    | ["walks.nbt", w, len, depth], [st, perms] =>
+      match w.toNat?, len.toNat?, depth.toNat?, st.toNat?, parseNatLists perms with
+      | some w, some len, some depth, some st, some perms => some (showWalk (walksNbt d.graph w len depth st perms))
+      | _, _, _, _, _ => some "ERR parse"
+    | ["ibfs", steps], [starts] =>
+      match steps.toNat?, nats starts with
+      | some steps, some S =>
+        let b := (List.range steps).foldl (fun (acc : IBfs Nat × List Nat) _ =>
+            let b' := acc.1.step d.graph
+            (b', acc.2 ++ [b'.cur.length])) (IBfs.init d.graph S, [(IBfs.init d.graph S).cur.length])
+        some (showNats b.2)
+      | _, _ => some "ERR parse"
+    | ["hamming"], [c, st] =>
+      match ints c, ints st with
+      | some c, some st => some (toString (hamming c st))
+      | _, _ => some "ERR parse"
+    | _, _ => none
+  | [] => none
 
 def natsOfInts (l : List Int) : List Nat := l.map Int.toNat
 
@@ -66,7 +198,7 @@ def handle0 (d : DState) (line : String) : DState × String :=
           ({ d with B := B, n := n, nGens := ps.length,
                     act := fun i x => permAct B n (psA.getD i []) x,
                     actInv := some fun i x => permAct B n (invs.getD i []) x,
-                    invClosed := ic }, s!"ok {if ic then 1 else 0}")
+                    invClosed := ic, invMap := GraphDef.inverseMapPerm ps, tab := {} }, s!"ok {if ic then 1 else 0}")
         else (d, "ERR bad-generator")
       | _, _, _ => (d, "ERR parse")
     | ["G", "mat", b, n, m], gens =>
@@ -86,10 +218,23 @@ def handle0 (d : DState) (line : String) : DState × String :=
             else none
           ({ d with B := B, n := n * m, nGens := ms.length,
                     act := fun i x => matAct B n m (msA.getD i #[]) x,
-                    actInv := inv, invClosed := ic },
+                    actInv := inv, invClosed := ic, invMap := GraphDef.inverseMapMat B n ms, tab := {} },
            s!"ok {if ic then 1 else 0} {if inv.isSome then 1 else 0}")
         | _, _ => (d, "ERR parse")
       | _, _, _ => (d, "ERR parse")
+    | ["H"], [pairs] =>
+      match ints pairs with
+      | some l =>
+        let rec go (t : Std.HashMap Nat Int) : List Int → Std.HashMap Nat Int
+          | a :: b :: rest => go (t.insert a.toNat b) rest
+          | _ => t
+        ({ d with tab := go {} l }, "ok")
+      | none => (d, "ERR parse")
+    | ["H.clear"], _ => ({ d with tab := {} }, "ok")
+    | ["central", c], _ =>
+      match c.toNat? with
+      | some c => ({ d with central := c }, "ok")
+      | none => (d, "ERR parse")
     | ["batch", k], _ =>
       match k.toNat? with
       | some k => ({ d with batch := k }, "ok")
@@ -233,7 +378,10 @@ def handleKernel (line : String) : Option String :=
 def handle (d : DState) (line : String) : DState × String :=
   match handleKernel line with
   | some r => (d, r)
-  | none => handle0 d line
+  | none =>
+    match handleAlgo d line with
+    | some r => (d, r)
+    | none => handle0 d line
 
 partial def loop (h : IO.FS.Stream) (out : IO.FS.Stream) (d : DState) : IO Unit := do
   let line ← h.getLine
